@@ -139,7 +139,8 @@ T* Cabinet<T>::free(const Token &token)
 template <typename T>
 void Cabinet<T>::clear()
 {
-    last_id_ = 0;
+    //! 注意：不要重置 last_id_。否则 clear() 之后分配的 Token 会与之前已失效的 Token 相同，
+    //! 导致旧 Token 能取到新对象
     cells_.clear();
     first_free_ = std::numeric_limits<Pos>::max();
     count_ = 0;
